@@ -58,8 +58,10 @@ POOL = {
     # granularity 1 in the code segment of families whose built-in default is 2 or 4 (AVR with byte-addressed code, ...)
     'avrgran1': [R(0x3b, 1, 1, 0x200, b'\x01\x02\x03\x04\x05\x06'), R(0x3b, 1, 2, 0x40, b'\x01\x02')],
     'c3xgran1': [R(0x76, 1, 1, 0x10, b'\x01\x02\x03'), R(0x70, 1, 1, 0x20, b'\x09\x08')],
+    # family with 4 bytes per address: short header (granularity implied by the family) and an explicit granularity of 2
+    'c3xshort': [R(0x76, 1, 4, 0x1000, bytes(range(16)), True), R(0x76, 1, 2, 0x40, b'\x01\x02\x03\x04')],
 }
-SUBPOOL = ['short41', 'data41', 'pic', 'entry', 'zero', 'unk', 'avr3', 'mcs51', 'avrgran1']
+SUBPOOL = ['short41', 'data41', 'pic', 'entry', 'zero', 'unk', 'avr3', 'mcs51', 'avrgran1', 'c3xshort']
 FILTERS = [None, ['0x41'], ['0x41,0x70'], ['0x12'], ['0x31,0x51,0x31'], ['0x3b', '0x41'], ['0x70,0x3b']]
 SEGN = {1: 'CODE', 2: 'DATA', 3: 'IDATA', 4: 'XDATA', 5: 'YDATA', 6: 'BITDATA', 7: 'IO', 8: 'REG', 9: 'ROMDATA', 10: 'EEDATA'}
 
